@@ -1,17 +1,36 @@
 import ALV.Common.Json
 import ALV.Model.C19
 import ALV.Spec.C19
+import ALV.Model.C19Obj
+import ALV.Spec.C19Obj
 namespace ALV.Driver.C19
 open ALV ALV.J ALV.C19
 
-/-- `{"num": x}` or `{"strm": [..]}` -/
+/-- `{"num": x}`, `{"strm": [..]}` or, for long runs, `{"cyc": [pattern], "len": N}`: the pattern
+    repeated cyclically, `N` items -/
 def getArg (j : Json) : Except String (Arg Rat) :=
   match j.getObjVal? "num" with
   | some v => do pure (.num (← getRat v))
   | none =>
     match j.getObjVal? "strm" with
     | some v => do pure (.strm (← getList getRat v))
-    | none => throw "argument must be {num} or {strm}"
+    | none =>
+      match j.getObjVal? "cyc" with
+      | some v => do
+        let pat := (← getList getRat v).toArray
+        let n ← getNat (← field j "len")
+        if pat.size = 0 then pure (.strm [])
+        else pure (.strm ((List.range n).map fun i => pat[i % pat.size]!))
+      | none => throw "argument must be {num}, {strm} or {cyc, len}"
+
+/-- a list of numbers, possibly given as `{"cyc": pattern, "len": N}` -/
+def getSeq (j : Json) : Except String (List Rat) :=
+  match j with
+  | Json.arr _ => getList getRat j
+  | _ => do
+    match ← getArg j with
+    | .strm xs => pure xs
+    | .num _ => throw "sequence expected"
 
 def allEq : List Rat → Option Rat
   | [] => none
@@ -27,7 +46,7 @@ def optRat (j : Json) (k : String) : Except String (Option Rat) :=
   | none => pure none
   | some v => do pure (some (← getRat v))
 
-def handle (entry : String) (j : Json) : Except String Json := do
+def handle1 (entry : String) (j : Json) : Except String Json := do
   match entry with
   | "modulo_counter" =>
     let a ← getArg (← field j "start")
@@ -98,7 +117,7 @@ def handle (entry : String) (j : Json) : Except String Json := do
       | some d => min n (durLen d)
     pure <| Json.mkObj [("model", natToJson (noiseLen dur n)), ("spec", natToJson specLen)]
   | "table_call" =>
-    let tbl ← getList getRat (← field j "table")
+    let tbl ← getSeq (← field j "table")
     let den ← getRat (← field j "den")
     let freq ← getArg (← field j "freq")
     let phase ← getArg (← field j "phase")
@@ -151,12 +170,12 @@ def handle (entry : String) (j : Json) : Except String Json := do
   | "karplus" =>
     let alpha ← getRat (← field j "alpha")
     let delay ← getRat (← field j "delay")
-    let memory ← getList getRat (← field j "memory")
+    let memory ← getSeq (← field j "memory")
     let n ← getNat (← field j "n")
     pure <| Json.mkObj [("model", rats (karplus alpha delay memory n)),
                         ("spec", rats (karplusSpec alpha delay memory n))]
   | "resample" =>
-    let sig ← getList getRat (← field j "sig")
+    let sig ← getSeq (← field j "sig")
     let step ← getArg (← field j "step")
     let order ← getNat (← field j "order")
     let zero ← getRat (← field j "zero")
@@ -171,5 +190,104 @@ def handle (entry : String) (j : Json) : Except String Json := do
       ("spec", Json.mkObj [("out", rats sp.1), ("ended", Json.bool sp.2)]),
       ("short", Json.bool (resShort sig order))]
   | _ => throw s!"C19: unknown entry {entry}"
+
+/-! ### long runs: only a sparse set of positions of every output list is transported -/
+
+/-- an output list `xs` becomes `{"n": xs.length, "at": [xs[i] for i in idx if i < n]}` -/
+def pick (idx : List Nat) (xs : List Json) : Json :=
+  let a := xs.toArray
+  Json.mkObj [("n", natToJson a.size), ("at", Json.arr (idx.filterMap fun i => a[i]?))]
+
+def sparsify (idx : List Nat) : Nat → Json → Json
+  | 0, j => j
+  | d + 1, j =>
+    match j with
+    | Json.arr xs => pick idx xs
+    | Json.obj kv => Json.obj (kv.map fun (k, v) =>
+        if k == "model" || k == "spec" || k == "rec" || k == "closed" || k == "out"
+        then (k, sparsify idx d v) else (k, v))
+    | j => j
+
+def handleIdx (entry : String) (j : Json) : Except String Json := do
+  let r ← handle1 entry j
+  match optField j "pick" with
+  | none => pure r
+  | some v => do
+    let idx ← getList getNat v
+    pure (sparsify idx 3 r)
+
+/-! ### histories of mutable `TableLookup` objects -/
+
+def getTOp (j : Json) : Except String TOp :=
+  match j with
+  | Json.str "add" => pure TOp.add | Json.str "sub" => pure TOp.sub
+  | Json.str "mul" => pure TOp.mul | Json.str "div" => pure TOp.div
+  | _ => throw "bad op"
+
+def getHOp (j : Json) : Except String (HOp Rat) := do
+  let nat (k : String) : Except String Nat := do getNat (← field j k)
+  let rat (k : String) : Except String Rat := do getRat (← field j k)
+  match ← getStr (← field j "op") with
+  | "newList" => pure (.newList (← getList getRat (← field j "xs")))
+  | "new" => pure (.new (← nat "l") (← rat "c"))
+  | "setTable" => pure (.setTable (← nat "i") (← nat "l"))
+  | "setTableUnsized" => pure (.setTableUnsized (← nat "i"))
+  | "setCycles" => pure (.setCycles (← nat "i") (← rat "c"))
+  | "setItem" => pure (.setItem (← nat "l") (← getInt (← field j "k")) (← rat "v"))
+  | "append" => pure (.append (← nat "l") (← rat "v"))
+  | "pop" => pure (.pop (← nat "l"))
+  | "binary" => pure (.binary (← getTOp (← field j "f")) (← nat "i") (← nat "j"))
+  | "scalar" => pure (.scalar (← getTOp (← field j "f")) (← nat "i") (← rat "x")
+      (← getBool (← field j "reflected")) (← getBool (← field j "known")))
+  | "neg" => pure (.neg (← nat "i"))
+  | "normalize" => pure (.normalize (← nat "i"))
+  | "harmonize" =>
+    let hs ← getList (fun h => do
+      let p ← getNat (← field h "p")
+      let a ← getRat (← field h "a")
+      pure (p, a)) (← field j "harm")
+    pure (.harmonize (← nat "i") hs)
+  | "call" => pure (.call (← nat "i") (← getArg (← field j "freq")) (← getArg (← field j "phase")))
+  | "read" => pure (.read (← nat "s") (← nat "k"))
+  | "getitem" => pure (.getitem (← nat "i") (← rat "idx"))
+  | "len" => pure (.len (← nat "i"))
+  | "eq" => pure (.eq (← nat "i") (← nat "j"))
+  | "table" => pure (.table (← nat "i"))
+  | o => throw s!"tl_hist: unknown op {o}"
+
+def obsJson : Obs Rat → Json
+  | .unit => Json.mkObj [("k", Json.str "unit")]
+  | .ref i => Json.mkObj [("k", Json.str "ref"), ("i", natToJson i)]
+  | .samples xs st => Json.mkObj [("k", Json.str "samples"), ("xs", rats xs), ("st", Json.str st)]
+  | .val x => Json.mkObj [("k", Json.str "val"), ("x", ratToJson x)]
+  | .nat n => Json.mkObj [("k", Json.str "nat"), ("n", natToJson n)]
+  | .bool b => Json.mkObj [("k", Json.str "bool"), ("b", Json.bool b)]
+  | .table xs c => Json.mkObj [("k", Json.str "table"), ("xs", rats xs), ("c", ratToJson c)]
+  | .err e => Json.mkObj [("k", Json.str "err"), ("e", Json.str e)]
+
+def handle (entry : String) (j : Json) : Except String Json := do
+  match entry with
+  | "multi" =>
+    -- several independent requests in one case (pools of generators alive at the same time)
+    let reqs ← getArr (← field j "reqs")
+    let res ← reqs.mapM fun r => do
+      let e ← getStr (← field r "entry")
+      handleIdx e r
+    pure <| Json.mkObj [("res", Json.arr res)]
+  | "tl_hist" =>
+    -- `dens`: the value of `cycles * 2 * pi` for every `cycles` used (computed by the harness
+    -- with the expression of the code)
+    let dens ← getList (fun p => do
+      match ← getArr p with
+      | [c, d] => pure ((← getRat c), (← getRat d))
+      | _ => throw "tl_hist: dens must be pairs") (← field j "dens")
+    let denOf : Rat → Rat := fun c => match dens.find? (·.1 == c) with
+      | some (_, d) => d
+      | none => 0
+    let ops ← getList getHOp (← field j "ops")
+    let h0 : Heap Rat := { lists := [], objs := [], oscs := [] }
+    pure <| Json.mkObj [("model", arr obsJson (histModel denOf h0 ops)),
+                        ("spec", arr obsJson (histSpec denOf h0 ops))]
+  | _ => handleIdx entry j
 
 end ALV.Driver.C19
